@@ -68,9 +68,10 @@ type World struct {
 	M       *Model
 	R       *RModel // recursive mode (C19)
 
-	held    map[int]int
-	sentN   int
-	plugged bool
+	held      map[int]int
+	sentN     int
+	plugged   bool
+	removeNow bool // inside RemoveNow
 
 	pending                []Ev   // expected since last sync
 	pendOpt                []bool // parallel to pending: may legitimately be dropped (watch removed while pending)
@@ -788,6 +789,7 @@ loop:
 	exp, opt := w.pending, w.pendOpt
 	w.pending, w.pendOpt = nil, nil
 	w.M.Suppressed = nil
+	w.M.EndedByFs = nil
 	if aligned, ok := alignOptional(exp, opt, got, w.segBurst); ok {
 		// delivered == expected with some optional events left out: compare the
 		// aligned sequences exactly (old names included)
@@ -1255,6 +1257,16 @@ func (w *World) Remove(p string) {
 		w.Sh.Rm(mw.Swd)
 		return
 	}
+	if w.removeNow && w.M.EndedByFs[c] {
+		// the watch ended through the filesystem within this burst; until the
+		// Watcher has handled that notification it still finds the watch and
+		// asks the kernel (nil, or EINVAL where the kernel dropped it already)
+		w.Feat["remove-racing-fs-end-of-watch"]++
+		if werr != nil && !errors.Is(werr, fsnotify.ErrNonExistentWatch) && !errors.Is(werr, syscall.EINVAL) {
+			w.find(FRmErr, "Remove(%q) of a path whose watch was ended by the filesystem in this burst returned %v", p, werr)
+		}
+		return
+	}
 	w.Feat["remove-unlisted"]++
 	if !errors.Is(werr, fsnotify.ErrNonExistentWatch) {
 		w.find(FRmErr, "Remove(%q) of an unlisted path returned %v, want ErrNonExistentWatch", p, werr)
@@ -1317,7 +1329,7 @@ func (w *World) RRemove(root string) {
 // reported.
 func (w *World) RemoveNow(p string) {
 	c := filepath.Clean(p)
-	if w.M.ByPath(c) != nil { // only a Remove that really ends a watch can discard what is pending for it
+	if w.M.ByPath(c) != nil || w.M.EndedByFs[c] { // only a Remove that really ends a watch can discard what is pending for it
 		for i, e := range w.pending {
 			if e.Name == c || strings.HasPrefix(e.Name, c+"/") {
 				w.pendOpt[i] = true
@@ -1334,7 +1346,9 @@ func (w *World) RemoveNow(p string) {
 		}
 	}
 	w.Feat["remove-inside-burst"]++
+	w.removeNow = true
 	w.Remove(p)
+	w.removeNow = false
 }
 
 // AddNow calls Add while events may still be pending. If the path is listed
